@@ -842,6 +842,58 @@ def rule_9(ctx):
     ctx.floor(80, 'parenthesised / chained / spaced witnesses')
 
 
+def rule_10(ctx):
+    """One witness workbook holding MANY formulas - the parenthesised, chained and plain pairs of C01.9/C01.2 side by side, and
+    operators over constant cells that hold 0 - compiled and evaluated as written: each cell's value equals the value of the same
+    formula evaluated on its own over the same operand values (whose tree C01.2/C01.9 decide). Formulas that differ only in their
+    parentheses, or cells whose value is zero, cannot borrow one another's result."""
+    from . import parsetables as P
+    from . import values as V
+    from . import workbook as W
+    from . import scenarios as S
+    anchor = ctx.mod('model').func('Model.build_code')
+    operands = {'A1': 2, 'B1': 3, 'C1': 5, 'D1': 7}
+    formulas = []
+    for f, _ in P.paren_and_chain_rows():
+        formulas.append(f)
+        plain = f.replace('(', '').replace(')', '')
+        if plain not in formulas:
+            formulas.append(plain)
+    if ctx.tier == 'quick':
+        formulas = formulas[:40]
+    cells = dict(operands)
+    addr_of = {}
+    for i, f in enumerate(formulas, start=1):
+        cells[f'F{i}'] = f
+        addr_of[f] = f'F{i}'
+    wb = W.Workbook(ctx, cells)
+    vcells = {k: V.num(v) for k, v in operands.items()}
+    for f in formulas:
+        got = wb.value('Sheet1!' + addr_of[f])
+        want = eval_formula(ctx, f, vcells, models=V.numpy_models())
+        if isinstance(want, tuple) and len(want) == 2 and want[0] == 'raise':
+            want = ('raise', 'RuntimeError')
+        ctx.expect(S.same(got, want) or (isinstance(got, tuple) and isinstance(want, tuple) and got[:1] == want[:1] == ('raise',)), anchor,
+                   f'one model, many formulas: {f}',
+                   f'{f} evaluates to {got!r} in a model that also holds the other witness formulas, and to {want!r} on its own '
+                   '(A1=2, B1=3, C1=5, D1=7): every formula text has its own tree - parentheses are part of the text')
+    # operators over cells that hold zero
+    zero_cells = {'A1': 0, 'B1': 0.0, 'C1': 3, 'D1': -2}
+    zf = [f'={a}{op}{b}' for op in ('>=', '<', '=', '<>', '&', '+', '-', '*') for a, b in (('A1', 'B1'), ('A1', 'C1'), ('C1', 'A1'), ('B1', 'D1'), ('D1', 'B1'))]
+    zcells = dict(zero_cells)
+    for i, f in enumerate(zf, start=1):
+        zcells[f'F{i}'] = f
+    wb = W.Workbook(ctx, zcells)
+    vz = {k: V.num(v) for k, v in zero_cells.items()}
+    for i, f in enumerate(zf, start=1):
+        got = wb.value(f'Sheet1!F{i}')
+        want = eval_formula(ctx, f, vz)
+        ctx.expect(S.same(got, want), anchor, f'operands read from cells holding zero: {f}',
+                   f'{f} over A1=0, B1=0.0, C1=3, D1=-2 evaluates to {got!r}; the operator applied to those numbers gives {want!r}: a cell that holds '
+                   '0 is the number 0, not an empty cell')
+    ctx.floor(70, 'workbook formulas')
+
+
 RULES = [
     ('C01.1', 'precedence relation of the operator table', rule_1),
     ('C01.2', 'trees of =A1 op1 B1 op2 C1 for every ordered pair of binary operators (end to end)', rule_2),
@@ -852,4 +904,5 @@ RULES = [
     ('C01.7', 'scientific-notation guard', rule_7),
     ('C01.8', 'operator nodes compute from the operand values of the current evaluation', rule_8),
     ('C01.9', 'parentheses, chains and blanks around operators (end to end)', rule_9),
+    ('C01.10', 'one workbook with many formulas; operands read from cells holding zero', rule_10),
 ]
